@@ -207,6 +207,12 @@ feature! {
 
 pub use subscribe::Subscribe;
 
+/// Verification hooks re-exported for crates that depend on `tracing-subscriber`
+/// but not on `tracing-core` (feature `verif-hooks` only).
+#[cfg(feature = "verif-hooks")]
+#[doc(hidden)]
+pub use tracing_core::__verif;
+
 feature! {
     #![all(feature = "registry", feature = "std")]
     pub use registry::Registry;
